@@ -257,6 +257,10 @@ class Dimension:
         for idx in index:
             if not isinstance(idx, (int, float, np.integer, np.floating)):
                 return "Invalid linked DataArray index: {!r} is not a number".format(idx)
+        # ... and together they have to be storable (an integer beyond 64 bit
+        # next to a negative one has no HDF5 type)
+        if np.asarray(list(index)).dtype.kind not in "iufb":
+            return "Invalid linked DataArray index: the values cannot be stored"
         invalid_idx_msg = (
             "Invalid linked DataArray index: "
             "One of the values must be -1, indicating the relevant vector. "
